@@ -1032,3 +1032,14 @@ b('C02', 'flatmap_find_closure_as_match', 'src/core/flatmap_fil_find.rs', """   
                             Some(y) => Some((chunk.begin_idx + x.0, y)),
                             None => None,
                         }""")
+m('C07', 'collect_x_entry_probes_first_element', 'src/core/map_fil_col_x.rs', """    let task = |c| task(&iter, &map, &filter, c);
+    let vectors = Runner::run_map(params, ParTask::Collect, &iter, &task);
+    output.append(vectors);""", """    if iter.try_get_len().is_none() {
+        match iter.next() {
+            None => return,
+            Some(first) => output.append(vec![vec![map(first)]]),
+        }
+    }
+    let task = |c| task(&iter, &map, &filter, c);
+    let vectors = Runner::run_map(params, ParTask::Collect, &iter, &task);
+    output.append(vectors);""", 'C05-ENTRY')
